@@ -271,6 +271,14 @@ pub fn run(fam: &Family, prop: &str, tier: &str, nw: u64) -> i32 {
     let outdir = PathBuf::from(format!("/verif/sim/target/tmp/{prop}-{tier}-{}", std::process::id()));
     let _ = std::fs::remove_dir_all(&outdir);
     std::fs::create_dir_all(&outdir).expect("tmp dir");
+    // scratch of this run goes away however the run ends
+    struct Cleanup(PathBuf);
+    impl Drop for Cleanup {
+        fn drop(&mut self) {
+            let _ = std::fs::remove_dir_all(&self.0);
+        }
+    }
+    let _cleanup = Cleanup(outdir.clone());
     let plan = (fam.plan)(prop, tier);
     let spawn = |wi: u64, resume: Option<(String, u64)>, gen: u32| {
         let log = std::fs::OpenOptions::new()
